@@ -45,7 +45,16 @@ def oracle(chk):
                 ("Matern32*Celerite", base[1][1] * base[4][1], True, lambda a, b: ev(1)(a, b) * ev(4)(a, b)),
                 ("Celerite*Matern52", base[4][1] * base[2][1], True, lambda a, b: ev(4)(a, b) * ev(2)(a, b)),
                 ("(Exp+Matern32)*Cosine", (base[0][1] + base[1][1]) * base[3][1], True, lambda a, b: (ev(0)(a, b) + ev(1)(a, b)) * ev(3)(a, b))]
-        return base + comb
+        # whole-number hyper-parameters passed as Python ints / integer arrays (integer-typed blocks must be promoted, not truncated,
+        # when they are combined with real-valued ones); the independent value is that of the float-typed twin
+        fv = lambda k: (lambda a, b, k=k: float(k.evaluate(jnp.asarray(a), jnp.asarray(b))))  # noqa: E731
+        ints = [("Sum[int SHO + Matern32]", qs.SHO(omega=2, quality=1) + qs.Matern32(1.5), fv(qs.SHO(2.0, 1.0) + qs.Matern32(1.5))),
+                ("Sum[int SHO + Matern52 + Exp]", qs.SHO(omega=2, quality=3) + qs.Matern52(1.5) + qs.Exp(0.7), fv(qs.SHO(2.0, 3.0) + qs.Matern52(1.5) + qs.Exp(0.7))),
+                ("Sum[int Celerite + Exp]", qs.Celerite(1, 0, 1, 2) + qs.Exp(0.7), fv(qs.Celerite(1.0, 0.0, 1.0, 2.0) + qs.Exp(0.7))),
+                ("Sum[Matern32 + int SHO]", qs.Matern32(1.5) + qs.SHO(omega=2, quality=1), fv(qs.Matern32(1.5) + qs.SHO(2.0, 1.0))),
+                ("Product[int SHO * Matern32]", qs.SHO(omega=jnp.asarray(2), quality=jnp.asarray(3)) * qs.Matern32(1.5), fv(qs.SHO(2.0, 3.0) * qs.Matern32(1.5))),
+                ("Sum[int Matern32 + Cosine]", qs.Matern32(scale=2, sigma=3) + qs.Cosine(scale=1.7), fv(qs.Matern32(2.0, 3.0) + qs.Cosine(1.7)))]
+        return base + comb + [(nm, kk, True, vf) for nm, kk, vf in ints]
     for rep in range(2 if quick else 12):
         for name, k, psd, valfn in kernels_(rng):
             F = np.asarray(k.design_matrix())
@@ -88,7 +97,7 @@ def run(chk):
     chk.cov["evaluations"] = n_eval
     chk.cov["distinct_nontrivial"] = ndist
     chk.cov["disagreements_checked"] = n_eval
-    chk.cov["rule"] = ("oracle: 9 built-in kernels (all three SHO regimes, CARMA for the non-PSD clauses) + sum, product, scale, nested tree; "
+    chk.cov["rule"] = ("oracle: 9 built-in kernels (all three SHO regimes, CARMA for the non-PSD clauses) + sum, product, scale, nested tree, sums / products with integer-typed hyper-parameters; "
                        "random parameters; interval triples t1<=t2<=t3 incl. zero-length; identity, composition, scipy expm(F^T dt), h^T P A h, "
                        "eigenvalues of P and of FP+PF^T; distinct = different (check, expected value)")
     chk.cov["samples"] = [dict(kernel="SHO-under", check="A(t2,t3) A(t1,t2) = A(t1,t3) and A = expm(F^T dt)")]
